@@ -36,9 +36,9 @@ func verifMap(c int, keys []*rt.GoType) (*_ProgramMap, []int) {
 	return m, slotOf
 }
 
-func verifPcacheStep(c int) {
+func verifPcacheStep(c int, nkeys int) {
 	keys := []*rt.GoType{{Hash: v.Uint32("h0")}, {Hash: v.Uint32("h1")}, {Hash: v.Uint32("h2")}, {Hash: v.Uint32("h3")}}
-	m, slotOf := verifMap(c, keys[:c/2])
+	m, slotOf := verifMap(c, keys[:nkeys])
 	nk := &rt.GoType{Hash: v.Uint32("hnew")}
 	absent := &rt.GoType{Hash: v.Uint32("habsent")}
 	oldN := m.n
@@ -47,7 +47,7 @@ func verifPcacheStep(c int) {
 	v.Assert(n != m, "add mutated the published map in place instead of copying")
 	v.Assert(m.n == oldN && m.m == oldM, "add changed the old map's header")
 	v.Assert(n.get(nk) == 999, "added key not found")
-	for k := range keys[:c/2] {
+	for k := range keys[:nkeys] {
 		if slotOf[k] >= 0 {
 			v.Assert(m.get(keys[k]) == 100+k, "old map lost an entry")
 			v.Assert(n.get(keys[k]) == 100+k, "existing key lost or remapped after add")
@@ -66,7 +66,7 @@ func verifPcacheStep(c int) {
 }
 
 // VerifC09PcacheStep4: one add() on an arbitrary valid map of capacity 4.
-func VerifC09PcacheStep4() { verifPcacheStep(4) }
+func VerifC09PcacheStep4() { verifPcacheStep(4, 2) }
 
-// VerifC09PcacheStep8: capacity 8.
-func VerifC09PcacheStep8() { verifPcacheStep(8) }
+// VerifC09PcacheStep8: capacity 8, up to 3 entries (4 entries: > 200000 paths).
+func VerifC09PcacheStep8() { verifPcacheStep(8, 3) }
